@@ -286,7 +286,10 @@ def run(ctx_):
         ms, ch, op = dmethods[i]
         idl = l2data.render_idl(ms, ch, op)
         if r.get("stage") != "run" or r.get("rc") != 0:
-            res["failures"].append({"property": prop, "idl": idl, "what": "the nine-pairing data program does not build or aborts (%s): %s" % (r.get("stage"), (r.get("err") or "")[-700:])})
+            f_ = {"property": prop, "idl": idl, "what": "the nine-pairing data program does not build or aborts (%s): %s" % (r.get("stage"), (r.get("err") or "")[-700:])}
+            if re.search(r"misaligned address 0x[0-9a-f]+ for type 'struct b[io]'", r.get("err") or ""):
+                f_["known_class"] = "K_bundle_alignment"
+            res["failures"].append(f_)
             continue
         data_lines += r["out"].count("\nimpl ")
         for pairing, line, refline in l2data.compare(r["out"])[:6]:
